@@ -460,6 +460,9 @@ func (e *dbcExec) Do(line string) string {
 	if len(f) == 3 && f[1] == "scan" {
 		return dbcScanDo(e, f[2])
 	}
+	if len(f) >= 3 && f[1] == "chainok" {
+		return dbcChainOKDo(e, f[2], len(f) == 4 && f[3] == "w")
+	}
 	if len(f) < 4 || (f[2] != "0" && f[2] != "1") {
 		return "bad-op"
 	}
@@ -532,6 +535,14 @@ func (dbcStream) Tag(lines, outs []string) (bool, []string) {
 	tags := []string{}
 	for i, l := range lines {
 		f := fields(l)
+		if len(f) >= 3 && f[1] == "chainok" {
+			tags = append(tags, "chainok", "chainok:"+strings.SplitN(outs[i], " ", 2)[0])
+			if len(f) == 4 {
+				tags = append(tags, "chainok:writer:"+strings.SplitN(outs[i], " ", 2)[0])
+			}
+			nt = true
+			continue
+		}
 		if len(f) == 3 && f[1] == "scan" {
 			tags = append(tags, "scan", "scan:last-"+outs[i][strings.LastIndex(outs[i], ",")+1:][:3])
 			nt = true
